@@ -62,7 +62,7 @@ class EdgeMonitor(Monitor):
             self.prev_marked[k] = v.marked_cancelled(j) and v.committed(j)
 
 
-def standard_run(ctx, make_monitors, n_hist=(40, 400), n_ops=(80, 140), cfg=None, **kw):
+def standard_run(ctx, make_monitors, n_hist=(40, 1200), n_ops=(80, 140), cfg=None, **kw):
     p = Patterns()
     mons = [p] + list(make_monitors(p))
     c = {'weights': dict(WEIGHTS_RUN)}
